@@ -31,7 +31,9 @@ def gen_prog(rng: random.Random, *, crash: float = 0.08) -> dict[str, Any]:
             elif a < 0.6:
                 action = "none"
             else:
-                action = {"raises": rng.random() < 0.3, "async": rng.random() < 0.5}
+                # "kind": a plain function / a functools.partial / a bound method / a callable object (possibly falsy)
+                action = {"raises": rng.random() < 0.3, "async": rng.random() < 0.5,
+                          "kind": rng.choice(["fn", "fn", "partial", "method", "obj", "falsyobj"])}
             if action == "none":
                 beh: dict[str, Any] = {"ends": rng.choice([0, 1, 3, 6, 9]), "exc": None}
             elif rng.random() < 0.3:
@@ -42,7 +44,8 @@ def gen_prog(rng: random.Random, *, crash: float = 0.08) -> dict[str, Any]:
                 beh["exc"] = rng.randrange(3)
             prog.append({"op": "start", "tid": n_task, "action": action, "beh": beh, "from_nested": rng.random() < 0.3,
                          "close_ticks": rng.choice([0, 0, 1, 2])})
-    return {"kind": "tasks", "prog": prog, "exit_at": rng.choice([0, 1, 2, 4, 7]), "nested": rng.random() < 0.4}
+    return {"kind": "tasks", "prog": prog, "exit_at": rng.choice([0, 1, 2, 4, 7]), "nested": rng.random() < 0.4,
+            "via_component": rng.random() < 0.3}
 
 
 class C08(Prop):
